@@ -146,6 +146,28 @@ fn run_one(cmd: &str, input: &[u8]) -> String {
           }
         }
       }
+      // optional second phase: "then_deletes": [id,..] are deleted and committed (a commit that adds no segment), a NEW
+      // reader is opened and "then_requests" are answered; a request with "cursor_from": k carries the next_cursor of the
+      // k-th first-phase answer
+      if let Some(dels) = v["then_deletes"].as_array() {
+        let mut w = match idx.writer() { Ok(w) => w, Err(e) => return format!("ERR writer {}", e) };
+        for id in dels { if let Err(e) = w.delete_document(id.as_str().unwrap_or("")) { return format!("ERR delete {}", e); } }
+        if let Err(e) = w.commit() { return format!("ERR commit {}", e); }
+        let reader2 = match idx.reader() { Ok(r) => r, Err(e) => return format!("ERR reader {}", e) };
+        for r in v["then_requests"].as_array().unwrap_or(&empty) {
+          let mut r = r.clone();
+          if let Some(k) = r.get("cursor_from").and_then(|k| k.as_u64()) {
+            let cur = outs.get(k as usize).and_then(|o| o["ok"]["next_cursor"].as_str()).map(|c| c.to_string());
+            if let Some(m) = r.as_object_mut() { m.remove("cursor_from"); if let Some(c) = cur { m.insert("cursor".to_string(), serde_json::Value::String(c)); } }
+          }
+          let req: searchlite_core::api::types::SearchRequest = match serde_json::from_value(r) { Ok(q) => q, Err(e) => { outs.push(serde_json::json!({"err": format!("request does not deserialize: {}", e)})); continue; } };
+          match catch_unwind(AssertUnwindSafe(|| reader2.search(&req))) {
+            Ok(Ok(sr)) => outs.push(serde_json::json!({"ok": sr})),
+            Ok(Err(e)) => outs.push(serde_json::json!({"err": e.to_string()})),
+            Err(_) => outs.push(serde_json::json!({"panic": "panic"})),
+          }
+        }
+      }
       format!("OK {}", serde_json::Value::Array(outs))
     }
     "relocate" => {
@@ -314,6 +336,7 @@ fn run_one(cmd: &str, input: &[u8]) -> String {
       };
       let mut idx = match searchlite_core::Index::create_with_storage(&path, hist_schema, mk_opts(), storage.clone()) { Ok(i) => i, Err(e) => return format!("ERR create {}", e) };
       let mut writer = match idx.writer() { Ok(w) => Some(w), Err(e) => return format!("ERR writer {}", e) };
+      let mut writer2: Option<searchlite_core::api::writer::IndexWriter> = None;
       let empty = Vec::new();
       let mut log: Vec<String> = Vec::new();
       for op in v["ops"].as_array().unwrap_or(&empty) {
@@ -327,6 +350,16 @@ fn run_one(cmd: &str, input: &[u8]) -> String {
           "commit" => { if let Err(e) = writer.as_mut().unwrap().commit() { log.push(format!("commit failed: {}", e)); } }
           "rollback" => { if let Err(e) = writer.as_mut().unwrap().rollback() { log.push(format!("rollback failed: {}", e)); } }
           "compact" => { if let Err(e) = idx.compact() { log.push(format!("compact failed: {}", e)); } }
+          // a second writer handle of the same index, alive next to the first one
+          "open2" => { writer2 = match idx.writer() { Ok(w) => Some(w), Err(e) => return format!("ERR second writer {}", e) }; }
+          "add2" => {
+            let doc: searchlite_core::api::types::Document = match serde_json::from_value(serde_json::json!({"fields": op[1]})) { Ok(d) => d, Err(e) => return format!("ERR doc {}", e) };
+            if let Some(w) = writer2.as_mut() { if let Err(e) = w.add_document(&doc) { log.push(format!("add2 failed: {}", e)); } }
+          }
+          "del2" => { if let Some(w) = writer2.as_mut() { if let Err(e) = w.delete_document(op[1].as_str().unwrap_or("")) { log.push(format!("del2 failed: {}", e)); } } }
+          "commit2" => { if let Some(w) = writer2.as_mut() { if let Err(e) = w.commit() { log.push(format!("commit2 failed: {}", e)); } } }
+          "rollback2" => { if let Some(w) = writer2.as_mut() { if let Err(e) = w.rollback() { log.push(format!("rollback2 failed: {}", e)); } } }
+          "drop2" => { writer2 = None; }
           "tear" => {
             // the process dies in the middle of an append: half a record (length 32, type 1, the first payload bytes) is
             // left behind the intact records of the log, then the index is reopened
